@@ -139,6 +139,40 @@ def lock_obligations(rep, prop='C20'):
                       {'init_calls': [n.lineno for n in calls]})
 
 
+def monitor_encapsulation(rep, prop='C20'):
+    """the shared lexer is monitor state: get_default_instance() publishes `cls._default_instance = cls()` and only then
+    initialises it, which is harmless as long as every reader takes the lock (i.e. goes through get_default_instance()).  A
+    read of `_default_instance` anywhere else in the package sees a half-initialised lexer in some schedule - unless the
+    instance is published only after default_initialization() has returned"""
+    q = 'sqlparse.lexer.Lexer.get_default_instance'
+    src = source()
+    node = src.get(q)
+    if node is None:
+        return
+    published_first = False
+    stmts = [n for n in ast.walk(node) if isinstance(n, (ast.Assign, ast.Expr))]
+    assign = [n for n in stmts if isinstance(n, ast.Assign) and any(isinstance(t, ast.Attribute) and t.attr == '_default_instance'
+                                                                    for t in n.targets)]
+    inits = [n for n in ast.walk(node) if isinstance(n, ast.Call) and isinstance(n.func, ast.Attribute)
+             and n.func.attr == 'default_initialization']
+    if assign and inits and min(a.lineno for a in assign) < min(i.lineno for i in inits):
+        published_first = True
+    elsewhere = []
+    for rel, tree in src.trees.items():
+        for fn in ast.walk(tree):
+            if not isinstance(fn, (ast.FunctionDef, ast.AsyncFunctionDef)) or (fn.name == 'get_default_instance'):
+                continue
+            for n in ast.walk(fn):
+                if isinstance(n, ast.Attribute) and n.attr == '_default_instance' and isinstance(n.ctx, ast.Load):
+                    elsewhere.append({'file': rel, 'function': fn.name, 'line': n.lineno})
+                if isinstance(n, ast.Call) and isinstance(n.func, ast.Name) and n.func.id == 'getattr' and len(n.args) >= 2 \
+                        and isinstance(n.args[1], ast.Constant) and n.args[1].value == '_default_instance':
+                    elsewhere.append({'file': rel, 'function': fn.name, 'line': n.lineno})
+    common.structural(rep, '%s/%s/monitor: no reader of the shared instance bypasses the lock while it is published before its '
+                      'initialisation' % (prop, q), q, not (elsewhere and published_first),
+                      {'reads_elsewhere': elsewhere, 'published_before_initialisation': published_first})
+
+
 def tokentype_obligations(rep):
     """every attribute chain rooted at the token-type modules that occurs in a function body exists after import
     (no _TokenType is created lazily at run time by __getattr__)"""
@@ -179,6 +213,7 @@ def tokentype_obligations(rep):
 def run(rep):
     frame_obligations(rep)
     lock_obligations(rep)
+    monitor_encapsulation(rep)
     tokentype_obligations(rep)
     from props.C14 import dictionary_obligations
     n0 = len(rep.obls)
